@@ -31,7 +31,16 @@ impl Story {
         let path = Path::new_with_components_string(Some(path_string));
 
         // Expected to be global story, knot, or stitch
-        let mut flow_container = self.content_at_path(&path).container().unwrap();
+        let found = self.content_at_path(&path);
+        let mut flow_container = match found.container() {
+            Some(container) if !found.approximate => container,
+            _ => {
+                return Err(StoryError::BadArgument(format!(
+                    "No knot or stitch found at path '{}'.",
+                    path_string
+                )));
+            }
+        };
 
         while let Some(first_content) = flow_container.content.first() {
             if let Ok(container) = first_content.clone().into_any().downcast::<Container>() {
